@@ -1,7 +1,7 @@
 #!/bin/bash
 # usage: tools/verify_mutant.sh Cxx   -- confirms a sub-agent's seeded change in its scratch worktree /tmp/mut/Cxx:
 #  (1) with mutant + demo applied: the existing 66 tests pass and the demo fails; (2) without the mutant the demo passes
-id=$1; wt=/tmp/mut/$id; out=/tmp/mut/$id-out
+id=$1; base=${2:-/tmp/mut}; wt=$base/$id; out=$base/$id-out
 cd $wt || exit 2
 git reset -q --hard; git clean -fdq -e target
 git apply $out/patch.diff || { echo "$id: mutant patch does not apply"; exit 2; }
